@@ -309,12 +309,13 @@ pub struct TemplateField {
 trait CommonTemplate {
     fn get_fields(&self) -> &Vec<TemplateField>;
 
-    fn get_field_count(&self) -> usize {
-        self.get_fields().len()
-    }
+    /// Number of field specifiers the template record announces.
+    fn get_field_count(&self) -> usize;
 
+    /// A record is valid only if every announced field specifier was present in the input
+    /// and at least one field has a length.
     fn is_valid(&self) -> bool {
-        self.get_field_count() == self.get_fields().len()
+        self.get_fields().len() >= self.get_field_count()
             && self.get_fields().iter().any(|f| f.field_length > 0)
     }
 }
@@ -323,11 +324,19 @@ impl CommonTemplate for Template {
     fn get_fields(&self) -> &Vec<TemplateField> {
         &self.fields
     }
+
+    fn get_field_count(&self) -> usize {
+        usize::from(self.field_count)
+    }
 }
 
 impl CommonTemplate for OptionsTemplate {
     fn get_fields(&self) -> &Vec<TemplateField> {
         &self.fields
+    }
+
+    fn get_field_count(&self) -> usize {
+        usize::from(self.field_count)
     }
 }
 
